@@ -648,7 +648,7 @@ func checkC06(c *Ctx) {
 	c.Rule("R14", "random sources shared by connection goroutines are goroutine-safe: a *rand.Rand (which is not) kept in a package-level variable or a field is only used under a mutex")
 	checkSharedRandSource(c, "R14")
 	c.Rule("R13", "the policy in force is the configured one (shared with C08.R5): a processor's configuration is replaced only after every fallible step of the update succeeded - otherwise a refused update leaves the new policy recorded but the old balancer in place, and no later update rebuilds it")
-	c.withAlias(map[string]string{"R5": "R13", "R1": "", "R2": "", "R3": "", "R4": "", "R6": "", "R7": "", "R8": "", "R9": "", "R10": "", "R11": "", "R12": "", "R13": "", "R14": "", "R15": ""}, func() { checkC08(c) })
+	c.withAlias(map[string]string{"R5": "R13", "R1": "", "R2": "", "R3": "", "R4": "", "R6": "", "R7": "", "R8": "", "R9": "", "R10": "", "R11": "", "R12": "", "R13": "", "R14": "", "R15": "", "R16": "", "R17": ""}, func() { checkC08(c) })
 	// the snapshot given to the balancer is current only if every tier change rebuilds the cache
 	checkTierRebuild(c, "R1")
 
